@@ -80,6 +80,7 @@ static Verdict run_prog(const ProgCase &c) {
   int reg_event = -1;
   uint32_t live = o.base_live_fds;
   bool nt = false;
+  int lowat = 1;
   for (int i = 0; i < k.nops; i++) {
     const Op &op = c.ops[i];
     const c06a_opres &r = o.r[i];
@@ -87,6 +88,17 @@ static Verdict run_prog(const ProgCase &c) {
     tg << "op#" << i << " (" << (op.op == 0 ? "add" : op.op == 1 ? "enable" : op.op == 2 ? "disable" : "del") << " event " << op.event << " flags " << op.flags
        << " fflags " << op.fflags << " data " << op.data << ")";
     std::string tag = tg.str();
+    {
+      // receive low-water mark of the socket: only a well-formed READ add/enable/disable with TP_FF_RW_LOWAT may touch it
+      bool may_set = c.ident_kind == 0 && op.event == EV_READ && (op.fflags & 1) && op.op != 3 && !malformed(c, op, o.fd_table_size);
+      if (!may_set) PBT_REQUIRE(r.rcvlowat == lowat, tag << ": the socket's receive low-water mark changed from " << lowat << " to " << r.rcvlowat << " (not a read registration with TP_FF_RW_LOWAT)");
+      else {
+        if (r.rc == 0 && op.data >= 1 && op.data <= 4096) PBT_REQUIRE(r.rcvlowat == (int)op.data, tag << ": receive low-water mark is " << r.rcvlowat);
+        label("read_lowat_applied");
+      }
+      lowat = r.rcvlowat;
+      if (op.event == EV_WRITE && (op.fflags & 1) && c.ident_kind == 0) label("write_lowat_requested");
+    }
     if (malformed(c, op, o.fd_table_size)) {
       PBT_REQUIRE(r.rc != 0, tag << ": malformed registration was accepted");
       PBT_REQUIRE(r.tfd_creates == 0 && r.ep_calls == 0 && r.tfd_settimes == 0, tag << ": malformed registration touched timerfd/epoll");
@@ -391,7 +403,9 @@ static Verdict run_fire(const FireCase &c) {
           // ">= 1 and silent after settling" is asserted there.
           bool is_reg_cmd = (j == chx) && (cm.cmd == E_ADD || cm.cmd == E_ENABLE || cm.cmd == E_ENABLE1);
           if (is_reg_cmd && !cm.outside) PBT_REQUIRE(s.fired_late[j] == s.fired_at_ret[j] + 1, tag << ": one-shot/dispatch registration fired " << (s.fired_late[j] - s.fired_at_ret[j]) << " times after arming");
-          else if (is_reg_cmd && cm.outside && was_persistent[j]) PBT_REQUIRE(s.fired_late[j] >= prev[j] + 1 && s.fired_late[j] == s.fired_after[j], tag << ": one-shot/dispatch registration kept firing");
+          // (the snapshot "at return" is taken after a fence behind the outside call: stale reports of the old persistent registration are in
+          //  it; afterwards the re-armed one-shot/dispatch registration reports at most once more, whenever its condition comes true)
+          else if (is_reg_cmd && cm.outside && was_persistent[j]) PBT_REQUIRE(s.fired_late[j] >= prev[j] + 1 && s.fired_late[j] <= s.fired_at_ret[j] + 1, tag << ": one-shot/dispatch registration kept firing");
           else PBT_REQUIRE(s.fired_late[j] == prev[j] + 1, tag << ": one-shot/dispatch registration fired " << (s.fired_late[j] - prev[j]) << " times");
           nt = true;
           break;
